@@ -61,9 +61,12 @@ impl Qcow2IoTokio {
         let mut file = self.file.lock().await;
 
         file.seek(SeekFrom::Start(offset)).await?;
-        let res = file.write(buf).await?;
+        // one write() call handles at most tokio's internal buffer size
+        file.write_all(buf).await?;
 
-        assert!(res == buf.len());
+        // tokio completes the write in background, and fallocate() works on
+        // the raw fd, so wait until the data reaches the file
+        file.flush().await?;
 
         Ok(())
     }
@@ -75,9 +78,19 @@ impl Qcow2IoOps for Qcow2IoTokio {
         let mut file = self.file.lock().await;
 
         file.seek(SeekFrom::Start(offset)).await?;
-        let res = file.read(buf).await?;
 
-        Ok(res)
+        // one read() call returns at most tokio's internal buffer size, so
+        // read until the buffer is full or the end of file is reached
+        let mut done = 0;
+        while done < buf.len() {
+            let res = file.read(&mut buf[done..]).await?;
+            if res == 0 {
+                break;
+            }
+            done += res;
+        }
+
+        Ok(done)
     }
 
     async fn write_from(&self, offset: u64, buf: &[u8]) -> Qcow2Result<()> {
